@@ -175,6 +175,18 @@ def oracle(p):
         gd, hd, kd = rand_grid(rng, D), rand_grid(rng, D), rand_grid(rng, D)
         try:
             g, h, k = mk(gd), mk(hd), mk(kd)
+            # pairs of grids that are different samplings of ONE domain (resized / re-flagged copies)
+            r = rng.random()
+            if r < 0.2:
+                new_size = [rng.randint(2, 40) for _ in range(D)]
+                h = g.resize(new_size)
+                hd = dict(gd, derived=f"resize{new_size}")
+            elif r < 0.3:
+                h = g.align_corners(not g.align_corners())
+                hd = dict(gd, derived="align_corners flipped")
+            elif r < 0.4:
+                h = g.center([v + rng.choice([-3.0, 0.5, 2.25]) for v in gd["center"]])
+                hd = dict(gd, derived="shifted copy")
         except Exception as e:  # noqa
             fail("C01:Grid:construct", f"valid grid rejected: {type(e).__name__}: {str(e)[:100]}", grid=gd)
             continue
